@@ -101,6 +101,39 @@ fn run_on(idx: u64, mode: u64, debug: bool, int_at: Option<u64>, vect: u8, reuse
     Ok((steps, maxdepth))
 }
 
+// ---- life cycle of signatures: registered, replaced and removed-by-replacement while the program is already running
+/// Program: three calls of the same subroutine (JSR SUB x3 ; HALT ; SUB: RET). The host registers signature `k1` for SUB after `r1` executed
+/// steps and signature `k2` after `r2` steps (kinds: 0 none, 1 stack arguments, 2 register arguments, 3 one register argument). A frame
+/// holds the arguments described by the signature registered for the callee when the call is made.
+fn run_late(r1: u64, k1: u64, r2: u64, k2: u64) -> Result<u64, (String, String)> {
+    let mut m = Machine::user();
+    m.debug_frames = true;
+    m.regs = [0x0041, 0x0042, 2, 3, 4, 5, 0xFD00, 0];
+    for (k, w) in [0x4803u16, 0x4802, 0x4801, 0xF025, 0xC1C0].iter().enumerate() { m.pokes.push((0x3000 + k as u16, *w)); }
+    for k in 0..4u16 { m.pokes.push((0xFD00 + k, 0xA000 + k)); }
+    let sig = |k: u64| match k { 1 => Some(ParameterList::with_calling_convention(&["a", "b"])), 2 => Some(ParameterList::with_pass_by_register(&[("x", Reg::R0), ("y", Reg::R1)], Some(Reg::R0))), 3 => Some(ParameterList::with_pass_by_register(&[("x", Reg::R1)], None)), _ => None };
+    let args = |k: u64| -> Vec<u16> { match k { 1 => vec![0xA000, 0xA001], 2 => vec![0x0041, 0x0042], 3 => vec![0x0042], _ => vec![] } };
+    let what = format!("three calls of one subroutine; signature kind {k1} registered after {r1} steps, kind {k2} after {r2} steps");
+    let mut p = build(&m);
+    let mut current = 0u64;
+    for step in 0..8u64 {
+        if step == r1 { if let Some(s) = sig(k1) { p.sim.frame_stack.set_subroutine_def(0x3004, s); current = k1; } }
+        if step == r2 { if let Some(s) = sig(k2) { p.sim.frame_stack.set_subroutine_def(0x3004, s); current = k2; } }
+        let pc = p.sim.pc;
+        let info = step_compare(&mut p, false)?;
+        if (0x3000..0x3003).contains(&pc) && info.outcome == Outcome::Executed {
+            // a call was just made: the innermost frame describes it
+            let Some(fs) = p.sim.frame_stack.frames() else { return Err(("frames-missing".into(), format!("{what}: debug_frames is on but frames() is None"))) };
+            let Some(f) = fs.last() else { return Err(("depth".into(), format!("{what}: no frame after the call at x{pc:04X}"))) };
+            let ga: Vec<u16> = f.arguments.iter().map(|w| w.get()).collect();
+            if f.callee_addr != 0x3004 || f.caller_addr != pc { return Err(("frame-entry:subroutine".into(), format!("{what}: frame after the call at x{pc:04X} = (x{:04X}, x{:04X})", f.caller_addr, f.callee_addr))); }
+            if ga != args(current) { return Err(("frame-arguments:registered-later".into(), format!("{what}: the call at x{pc:04X} (step {step}) made a frame with arguments {ga:x?}; the signature registered for the callee at that moment (kind {current}) describes {:x?}", args(current)))); }
+        }
+        if matches!(info.outcome, Outcome::Halt | Outcome::Err(_)) { return Ok(step + 1); }
+    }
+    Ok(8)
+}
+
 // ---- strict mode: a step that strict mode rejects has executed nothing, so it cannot have entered or left a subroutine
 /// words 0-8 at position k of the program: JSR +0, JSR +1, RET, LD R7 <- never-written cell, LD R7 <- cell pointing at never-written memory, ADD, JSRR R1, TRAP x21, JMP R1
 fn strict_word(sel: u64, k: u16) -> u16 {
@@ -214,6 +247,12 @@ pub fn run_engine(ctx: &Ctx) -> Report {
         }
     });
     rep.absorb(r);
+    let r = sweep(ctx, 8 * 4 * 8 * 4, 16, |k, acc| {
+        let (r1, k1, r2, k2) = (k % 8, k / 8 % 4, k / 32 % 8, k / 256);
+        acc.evals += 1; acc.count("signatures_registered_while_running", 1);
+        match run_late(r1, k1, r2, k2) { Ok(steps) => { acc.transitions += steps; acc.nontrivial += 1; } Err((sig, d)) => acc.violation(sig, format!("late:{r1}:{k1}:{r2}:{k2}"), d) }
+    });
+    rep.absorb(r);
     let r = sweep(ctx, DEEP_N.len() as u64 * 2, 1, |k, acc| {
         let (n, debug) = (DEEP_N[(k / 2) as usize], k % 2 == 1);
         acc.evals += 1; acc.traces += 1; acc.count("deep_nesting_runs", 1);
@@ -229,6 +268,7 @@ pub fn run_engine(ctx: &Ctx) -> Report {
 pub fn replay(case: &str) -> Option<String> {
     let p: Vec<&str> = case.split(':').collect();
     if p.first() == Some(&"deep") { return run_deep(p.get(1)?.parse().ok()?, *p.get(2)? == "1").err().map(|(s, d)| format!("[{s}] {d}")); }
+    if p.first() == Some(&"late") { let n = |i: usize| -> Option<u64> { p.get(i)?.parse().ok() }; return run_late(n(1)?, n(2)?, n(3)?, n(4)?).err().map(|(s, d)| format!("[{s}] {d}")); }
     if p.first() == Some(&"s") { return run_strict(p.get(1)?.parse().ok()?, *p.get(2)? == "1").err().map(|(s, d)| format!("[{s}] {d}")); }
     let at: i64 = p.get(3)?.parse().ok()?;
     run_on(p.first()?.parse().ok()?, p.get(1)?.parse().ok()?, *p.get(2)? == "1", if at < 0 { None } else { Some(at as u64) }, p.get(4).and_then(|x| x.parse().ok()).unwrap_or(0x90), p.get(5) == Some(&"r")).err().map(|(s, d)| format!("[{s}] {d}"))
